@@ -8,8 +8,15 @@ The model runs on *concrete indices* (`to_index`) — that is what the Rust code
 therefore on a `View` of each argument (abstract graph + index labeling + neighbour iteration orders).  Its
 answers are reported in abstract node ids, like the harness's.
 
-`usize::MAX` ("not mapped") is `none`.  The `while let` loop takes fuel; `none` = fuel exhausted (never
-happens on the sizes the driver runs; reported as `FUEL`).
+`usize::MAX` ("not mapped") is `none`.  The `while let` loop takes fuel: `isoLoop` / `isomorphisms` return the
+outer `none` when the fuel is exhausted.  The wrappers do NOT report that: they call `isomorphisms` with the
+fixed fuel `bigFuel = 4000000`, and `tryMatch` maps an exhausted call to `false` (like `None` under
+`unwrap_or(false)`), `iterLoop` maps it to "the iterator ended" (end flag `true`, exactly like a `None` from
+`next()`).  So at the level of `isoModel` / `subModel` / `iterModel` (and of the driver, which has no `FUEL`
+verdict) an exhausted call is indistinguishable from a negative answer / the end of the iteration; the answers
+are complete only when no call runs out of fuel.  That is guaranteed whenever `explicitBound I ≤ bigFuel`
+(`Proofs/C13W3Term.lean`: the loop terminates within `explicitBound I` iterations; this covers all graphs with
+at most 9 nodes, the driver runs at most 7) — see the `_bounded` / `_fuel` theorems of `Theorems/C13.lean`.
 -/
 namespace PetgraphModel.C13.Vf2
 open PetgraphModel
